@@ -68,6 +68,9 @@ pub struct Info {
     pub extended_after_reboot: usize,
     pub max_height: u64,
     pub invalid_side_blocks_stored: usize,
+    pub second_restarts: usize,
+    /// second restart ended on another branch (finding F41's territory; not judged here)
+    pub second_restart_other_branch: usize,
 }
 
 fn in_window_set(chain: &saito_core::core::consensus::blockchain::Blockchain, gp: u64) -> BTreeSet<UKey> {
@@ -184,7 +187,37 @@ fn check_rebooted(n: &mut NetNode, table: &BlockTable, allowed: &BTreeSet<SaitoH
             if matches!(block_on(builder.add_guarded(nb.clone())).as_ref().map(res_str), Some("added_lc")) {
                 let r = crate::ctx::catch(|| n.add_direct(nb.clone()));
                 match r {
-                    crate::ctx::Outcome::Returned("added_lc") => info.extended_after_reboot += 1,
+                    crate::ctx::Outcome::Returned("added_lc") => {
+                        info.extended_after_reboot += 1;
+                        // the recovered node is an ordinary node again: after one more block a clean
+                        // restart from its own files must come back on the extended tip
+                        let ts2 = ts + 30_000;
+                        let gt2 = if density_needs_gt(&builder) { block_on(builder.mine_gt(nb.hash, &key(1), 4343)) } else { None };
+                        let txs2 = if gt2.is_none() { vec![carrier_tx(&key(2), ts2)] } else { vec![] };
+                        if let Ok(nb2) = block_on(builder.make_block_as(&key(2), nb.hash, ts2, txs2, gt2)) {
+                            if matches!(block_on(builder.add_guarded(nb2.clone())).as_ref().map(res_str), Some("added_lc")) && matches!(crate::ctx::catch(|| n.add_direct(nb2.clone())), crate::ctx::Outcome::Returned("added_lc")) {
+                                let (n2, o2) = reboot(n.cfg_ncfg(), n.io.files());
+                                info.second_restarts += 1;
+                                match o2 {
+                                    HandlerOutcome::Panicked(site, msg) => v.push((format!("C12|panic_on_second_restart|site={site}|{ctxs}"), format!("the node recovered, was extended by two blocks and restarted cleanly: panic at {site}: {msg}"))),
+                                    _ => {
+                                        let t2 = n2.tip();
+                                        if t2.1 != nb2.hash {
+                                            let lost = t2.1 == nb.hash || t2.1 == [0; 32] || path.iter().any(|b| b.hash == t2.1);
+                                            if lost {
+                                                v.push((
+                                                    format!("C12|blocks_lost_at_restart_after_recovery|{ctxs}"),
+                                                    format!("the node recovered on height {}, was extended to height {} and shut down cleanly; restarted from its own files it is back on height {} ({}), an ancestor: the blocks above are lost", tip_id, nb2.id, t2.0, hx(&t2.1)),
+                                                ));
+                                            } else {
+                                                info.second_restart_other_branch += 1;
+                                            }
+                                        }
+                                    }
+                                }
+                            }
+                        }
+                    }
                     crate::ctx::Outcome::Returned(other) => v.push((format!("C12|cannot_extend_after_restart|{ctxs}"), format!("a valid next block on the restarted node's tip (height {}) was answered with {}", tip_id, other))),
                     crate::ctx::Outcome::Panicked(site, msg) => v.push((format!("C12|panic_extending_after_restart|site={site}|{ctxs}"), format!("adding the next block after the restart panicked at {site}: {msg}"))),
                 }
@@ -428,6 +461,8 @@ fn eval(c: &mut Ctx, case: &Case, counting: bool, full: bool) -> Vec<(String, St
             (info.came_up_on_tip, "came_up_on_pre_crash_tip"),
             (info.extended_after_reboot, "extended_chain_after_reboot"),
             (info.invalid_side_blocks_stored, "invalid_side_block_on_disk_at_shutdown"),
+            (info.second_restarts, "second_clean_restart_after_recovery_and_two_more_blocks"),
+            (info.second_restart_other_branch, "second_restart_on_another_branch(F41 territory, not judged)"),
         ] {
             if n > 0 {
                 *c.classes.entry(k.to_string()).or_insert(0) += n as u64;
